@@ -536,6 +536,7 @@ mod c45 {
             rep.violate("dlq-count-mismatch", "-", format!("count()={} lines={}", dlq.count(), text.lines().count()));
         }
         let _ = std::fs::remove_file(&path);
+        let _ = std::fs::remove_dir(&dir); // leave no per-process scratch directory behind
         rep.nontrivial = rep.faults.get("downstream-failure").copied().unwrap_or(0) > 0 && !dlq_ids.is_empty() && !delivered.is_empty();
     }
 
